@@ -422,6 +422,9 @@ def _c12_jobs(tier):
         for pool in (0, 2):
             jobs.append(("c12_request", ["--topo", topo, "--pool", pool, "--nreq", 2, "--depth", 6 if q else 8, "--deadline", 75 if q else 840]))
         jobs.append(("c12_request", ["--topo", topo, "--pool", 0, "--nreq", 3, "--depth", 5 if q else 6, "--deadline", 75 if q else 840]))
+        # providers that answer inside register, and a requester whose uref_mgr callback withdraws and re-issues its uclock request
+        for (tprov, cb) in ((1, 0), (1, 1), (0, 1)):
+            jobs.append(("c12_request", ["--topo", topo, "--pool", 0, "--nreq", 3, "--tprov", tprov, "--cb", cb, "--depth", 5 if q else 6, "--deadline", 75 if q else 840]))
     return jobs
 
 CHECKS["C12"] = {
@@ -431,7 +434,7 @@ CHECKS["C12"] = {
     "level_note": "Chain length 2 (+ queue); longer chains repeat the same helper. Requests that no provider holds are answered by the real uprobe_uref_mgr / uprobe_uclock probes. Flow-format and ubuf-manager requests are not in the alphabet.",
     "jobs": {"quick": _c12_jobs("quick"), "thorough": _c12_jobs("thorough")},
     "rule": "state = one operation history (no merging); non-trivial = histories in which a provider held a registration or the head callback fired",
-    "bounds": {"quick": "4 topologies x pool depth {0,2}: all sequences of up to 6 operations with 2 request types; 3 request types up to depth 5",
+    "bounds": {"quick": "4 topologies x pool depth {0,2}: all sequences of up to 6 operations with 2 request types; 3 request types up to depth 5, also with providers answering inside register and with a requester callback that withdraws and re-issues another request (mutating the request lists during re-plumbing)",
                "thorough": "depth 8 (2 request types) and 6 (3 request types)"},
     "assumptions": DEFAULT_ASSUME + ["a requester unregisters its requests before releasing the pipe it registered them on (ownership rule)"],
     "job_timeout": {"quick": 300, "thorough": 1500},
